@@ -6,7 +6,7 @@ from props import solver_common as sc
 
 ID = 'C17'
 PROPS_FILE = 'Props/C17.v'
-MODEL_FILES = ['Solver/Solver.v', 'Solver/SolverF.v', 'Solver/SolveAll.v', 'Tracer/Tracer.v', 'Tracer/TracerSolve.v', 'Tracer/TracerF.v']
+MODEL_FILES = ['Solver/Solver.v', 'Solver/SolverF.v', 'Solver/SolveAll.v', 'Tracer/Tracer.v', 'Tracer/TracerSolve.v', 'Tracer/TracerNames.v', 'Tracer/TracerF.v']
 K_NAME = ('K_tracer (Tracer.traced_solve_t, TracerSolve.traced_solve_period_all / traced_solve_all — solve() from its start= / end= LABELS: '
           'validation, iter_periods defaults from lags / leads, list.index lookup — and their untraced twins Solver.solve_t_M, '
           'SolveAll.solve_period_M / solve_M, instantiated with PrimFloat, vs TracerMixin over scripted and parser-built models: state, '
@@ -37,7 +37,6 @@ CASE_TIMEOUT = 30
 
 KNOWN_SIG = 'C17|TracerMixin.trace_t<-solve*|trace-width-mismatch-on-repeated-solve|ValueError'
 STALE_SIG = 'C17|TracerMixin.trace_t<-solve*|stale-names-on-repeated-solve|snapshots-filed-under-other-names'
-ALIAS_SIG = 'C17|Trace.names|is-the-models-own-names-list|names-grow-after-add_variable'
 
 
 # --------------------------------------------------------------------------- the trace= argument
@@ -55,12 +54,16 @@ def py_trace(a):
         return tuple('V%d' % i for i in a[1])
     if k == 'empty_str':
         return ''
+    if k == 'genexp':                 # a generator: truthy, not a Sequence -> never iterated, the default names are traced
+        return ('V%d' % i for i in a[1])
+    if k == 'set':                    # likewise a non-empty set
+        return {'V%d' % i for i in a[1]}
     raise AssertionError(a)
 
 
 def truthy(a):
     k = a[0]
-    return (k == 'flag' and bool(a[1])) or k == 'name' or (k in ('list', 'tuple') and len(a[1]) > 0)
+    return (k == 'flag' and bool(a[1])) or k == 'name' or (k in ('list', 'tuple', 'set') and len(a[1]) > 0) or k == 'genexp'
 
 
 def names_of(case, a):
@@ -84,6 +87,8 @@ def c_targ(a):
         return '(TList %s)' % lib.clist(lib.cnat(i) for i in a[1])
     if k == 'empty_str':
         return '(TList [])'          # '' is falsy exactly like []: tracing off, the names are never looked at
+    if k in ('genexp', 'set'):
+        return '(TFlag true)'        # truthy, not a Sequence: the class defaults, like True
     raise AssertionError(a)
 
 
@@ -93,9 +98,21 @@ def _opts_kw(o):
                 failures=o['failures'], errors=o['errors'], catch_first_error=o['catch_first_error'])
 
 
+def py_label(x):
+    return 'u%d' % x[1] if isinstance(x, list) else x          # ['user', n] -> 'u<n>'; 'start' / 'before' / 'end' / int as they are
+
+
 def _run(m, call, kw):
     e = call['entry']
     try:
+        if e in ('trace_t', 'trace_period'):
+            # the public snapshot methods take trace= / reset= only (solver options would be swallowed by **kwargs)
+            tk = {k: v for k, v in kw.items() if k in ('trace', 'reset')}
+            if e == 'trace_t':
+                m.trace_t(call['t'], py_label(call['label']), **tk)
+            else:
+                m.trace_period(call['plabel'], py_label(call['label']), **tk)
+            return ['ret', None]
         if e == 'solve_t':
             return ['ret', bool(m.solve_t(call['t'], **kw))]
         if e == 'solve_period':
@@ -123,45 +140,135 @@ def impl(case):
     import scripted_tracer as st
     if case.get('kind') == 'parsed':
         return impl_parsed(case)
+    if case.get('kind') == 'init':
+        return impl_init(case)
     cls = st.make_classes(case['nvars'], case['check'], case['endo'], case.get('lags', 0), case.get('leads', 0), case.get('trace_variables'))
     n = case['n']
     span = list(range(2000, 2000 + n))
     m = st.instantiate(cls, span, case['vals'], case['status'], case['iters'], case['scripts'])     # traced instance
     u = st.instantiate(cls, span, case['vals'], case['status'], case['iters'], case['scripts'])     # untraced twin
     steps = []
+    specs = []
     for call in case['calls']:
         kw = _opts_kw(call['opts'])
         tkw = dict(kw)
         a = call.get('trace', ['omit'])
+        spec = None
         if a[0] != 'omit':
-            tkw['trace'] = py_trace(a)
+            spec = tkw['trace'] = py_trace(a)
+            specs.append(spec)
         if call.get('reset') is not None:
             tkw['reset'] = bool(call['reset'])
         ncol = len(m.__dict__['_columns'])
+        olds = list(m.__dict__['_trace'])
         out_m = _run(m, call, tkw)
-        out_u = _run(u, call, kw)
+        out_u = _run(u, call, kw) if call['entry'] not in DIRECT else ['ret', None]
         s = _snapshot(m, case['nvars'])
         s['out'] = out_m
         s['traces'] = st.observe_traces(m, lib.fhex)
+        s['frames'] = _frames(m, st.name_id)
+        s['alias'] = _alias_obs(m, olds, spec)
         s['columns'] = [[c[0], c[1], c[2], [lib.fhex(x) for x in c[3]]] for c in m.__dict__['_columns'][ncol:]]
         tw = _snapshot(u, case['nvars'])
         tw['out'] = out_u
         tw['traces_untouched'] = all(len(t.index) == 0 and t.values.shape == (0,) for t in u.__dict__['_trace'])
         s['twin'] = tw
         steps.append(s)
-    return {'steps': steps, 'names_follow_model': _names_follow_model(m)}
+    return {'steps': steps, 'names_follow_edits': _names_follow_edits(m, specs)}
 
 
-def _names_follow_model(m):
-    """After everything else was observed: add a variable to the model and report the periods whose (non-empty) Trace
-    changed its `names` because of that — a Trace is a record of a finished solve and must not move with the model."""
+DIRECT = ('trace_t', 'trace_period')
+
+
+# --------------------------------------------------------------------------- TracerMixin.__init__
+def _init_name(case):
+    k = case['trace_name']
+    return 'V%d' % k[1] if k[0] == 'var' else (k[0] if k[0] in ('status', 'iterations') else ['trace', 'log', 'span', 'names', 'T'][k[1]])
+
+
+def _init_id(case, name):
+    """names as numbers: 'status' = 0, 'iterations' = 1, V<i> = 2 + i, anything else = 100 + its position in the list of fresh names"""
+    if name == 'status':
+        return 0
+    if name == 'iterations':
+        return 1
+    if name[:1] == 'V' and name[1:].isdigit():
+        return 2 + int(name[1:])
+    return 100 + ['trace', 'log', 'span', 'names', 'T'].index(name)
+
+
+def impl_init(case):
+    import scripted
+    import scripted_tracer as st
+    import fsic
+    from fsic.extensions.model import TracerMixin
+    base = scripted.make_class(fsic.BaseModel, case['nvars'], list(range(min(1, case['nvars']))), [])
+    tn = _init_name(case)
+
+    class Traced(TracerMixin, base):
+        TRACE_NAME = tn
+    before = None
+    try:
+        m = Traced(list(range(2000, 2000 + case['n'])))
+    except Exception as ex:
+        return {'init': ['raise', type(ex).__name__]}
+    trs = m[tn]
+    return {'init': ['ok', [_init_id(case, x) for x in m.index], len(trs), all(t.is_empty() and t.index == [] and list(t.names) == [] for t in trs)]}
+
+
+def _frames(m, name_id):
+    """Trace.to_dataframe() of every period: ['df', row labels, column ids, rows] or ['raise', class]."""
+    out = []
+    for tr in m.__dict__['_trace']:
+        try:
+            df = tr.to_dataframe()
+            out.append(['df', [x if isinstance(x, str) else int(x) for x in df.index], [name_id(c) for c in df.columns],
+                        [[lib.fhex(v) for v in row] for row in df.values.tolist()]])
+        except Exception as ex:
+            out.append(['raise', type(ex).__name__])
+    return out
+
+
+def _alias_obs(m, olds, spec):
+    """For every Trace object CREATED by the call just made: is its `names` the model's own list, the class's
+    TRACE_VARIABLES, the object the caller passed as trace= ?  [[period, is_model, is_class, is_spec], ...]"""
+    out = []
+    tv = type(m).TRACE_VARIABLES
+    for p, t in enumerate(m.__dict__['_trace']):
+        if t is not olds[p] and len(t.index):
+            out.append([p, t.names is m.__dict__['names'], tv is not None and t.names is tv, spec is not None and t.names is spec])
+    return out
+
+
+def _names_follow_edits(m, specs):
+    """After everything else was observed: (1) add a variable to the model, (2) edit every list the caller passed as
+    trace=, (3) edit the class's TRACE_VARIABLES list — and report the periods whose Trace changed its `names` after
+    which step.  A Trace is the record of a finished solve: none of this may move it."""
     trs = list(m.__dict__['_trace'])
     before = [list(t.names) for t in trs]
+    moved = []
+
+    def note(step):
+        for p, t in enumerate(trs):
+            if len(t.index) and list(t.names) != before[p]:
+                moved.append([step, p])
+                before[p] = list(t.names)
     try:
         m.add_variable('ZZ9', 0.0)
     except Exception as ex:
-        return ['add_variable failed: ' + type(ex).__name__]
-    return [p for p, t in enumerate(trs) if len(t.index) and list(t.names) != before[p]]
+        return [['add_variable failed: ' + type(ex).__name__, -1]]
+    note('add_variable')
+    for sp in specs:
+        if isinstance(sp, list):
+            sp.append('ZZ8')
+            sp[0] = 'ZZ7'
+    note('edit of the list passed as trace=')
+    tv = type(m).TRACE_VARIABLES            # (the class was made for this case only)
+    if isinstance(tv, list):
+        tv.append('ZZ6')
+        tv[0:1] = ['ZZ5']
+    note('edit of TRACE_VARIABLES')
+    return moved
 
 
 # --------------------------------------------------------------------------- parser-built (C01-grammar) models
@@ -213,11 +320,14 @@ def impl_parsed(case):
         tkw['trace'] = ren(t_) if isinstance(t_, str) and t_ else (type(t_)(ren(x) for x in t_) if isinstance(t_, (list, tuple)) else t_)
     if call.get('reset') is not None:
         tkw['reset'] = bool(call['reset'])
+    olds = list(m.__dict__['_trace'])
     out_m = _run(m, call, tkw)
     out_u = _run(u, call, kw)
     s = snap(m)
     s['out'] = out_m
     s['traces'] = st.observe_traces_named(m, names, lib.fhex)
+    s['frames'] = _frames(m, names.index)
+    s['alias'] = _alias_obs(m, olds, tkw.get('trace'))
     s['columns'] = [[c[0], c[1], c[2], [lib.fhex(x) for x in c[3]]] + list(c[4:]) for c in m.__dict__['_columns']]
     tw = snap(u)
     tw['out'] = out_u
@@ -238,7 +348,7 @@ def impl_parsed(case):
             ps.append(acts)
     derived = {'nvars': nv, 'check': [names.index(x) for x in m.check], 'endo': [names.index(x) for x in m.endogenous],
                'lags': int(m.lags), 'leads': int(m.leads), 'scripts': scripts, 'vals': vals0}
-    return {'steps': [s], 'derived': derived, 'names_follow_model': _names_follow_model(m)}
+    return {'steps': [s], 'derived': derived, 'names_follow_edits': _names_follow_edits(m, [tkw['trace']] if 'trace' in tkw else [])}
 
 
 def _full(case, obs):
@@ -255,7 +365,7 @@ def _full(case, obs):
 # --------------------------------------------------------------------------- Coq encoding
 PREAMBLE = '''From Coq Require Import PrimFloat ZArith List Bool.
 Import ListNotations.
-Require Import Fsic.Base.PyBase Fsic.Solver.Solver Fsic.Solver.SolverF Fsic.Solver.SolveAll Fsic.Tracer.Tracer Fsic.Tracer.TracerSolve Fsic.Tracer.TracerF.
+Require Import Fsic.Base.PyBase Fsic.Solver.Solver Fsic.Solver.SolverF Fsic.Solver.SolveAll Fsic.Tracer.Tracer Fsic.Tracer.TracerSolve Fsic.Tracer.TracerNames Fsic.Tracer.TracerF.
 Open Scope float_scope. Open Scope Z_scope.
 '''
 
@@ -277,10 +387,17 @@ def c_call(case, call):
         ent = '(ESolveT %s)' % lib.cZ(call['t'])
     elif e == 'solve_period':
         ent = '(ESolvePeriod %s)' % lib.cZ(call['label'])
+    elif e == 'trace_t':
+        ent = '(ETraceT %s %s)' % (lib.cZ(call['t']), c_label(py_label(call['label'])))
+    elif e == 'trace_period':
+        ent = '(ETracePeriod %s %s)' % (lib.cZ(call['plabel']), c_label(py_label(call['label'])))
     else:
         # the labels as passed; which positions they mean (defaults from lags / leads, list.index, range) is the MODEL's business
         ent = '(ESolve %s %s)' % (c_optZ(call.get('start')), c_optZ(call.get('end')))
-    return '(mkCall %s %s %s %s)' % (ent, sc.c_opts(call['opts']), c_targ(call.get('trace', ['omit'])), lib.cbool(bool(call.get('reset'))))
+    a = call.get('trace', ['omit'])
+    # called directly, trace_t never asks whether `trace` is truthy: '' is the one-element list [''] there (an unknown name)
+    targ = '(TName 999%nat)' if (e in DIRECT and a[0] == 'empty_str') else c_targ(a)
+    return '(mkCall %s %s %s %s)' % (ent, sc.c_opts(call['opts']), targ, lib.cbool(bool(call.get('reset'))))
 
 
 def c_label(x):
@@ -290,7 +407,16 @@ def c_label(x):
         return 'LBefore'
     if x == 'end':
         return 'LEnd'
+    if isinstance(x, str) and x[:1] == 'u' and x[1:].isdigit():
+        return '(LUser %s)' % lib.cnat(int(x[1:]))
     return '(LIter %s)' % lib.cnat(x)
+
+
+def c_frame(f):
+    if f[0] == 'raise':
+        return '(Raise %s)' % sc.EXN.get(f[1], 'OtherError')
+    return '(Ret (%s, %s, %s))' % (lib.clist(c_label(x) for x in f[1]), lib.clist(lib.cnat(i) for i in f[2]),
+                                   lib.clist(lib.clist(lib.cfloat(v) for v in row) for row in f[3]))
 
 
 def c_trace(t):
@@ -300,6 +426,8 @@ def c_trace(t):
 
 def c_res(call, out):
     import scripted
+    if call['entry'] in DIRECT:
+        return '(RUnit (Ret tt))' if out[0] == 'ret' else '(RUnit (Raise %s))' % sc.EXN.get(out[1], 'OtherError')
     if call['entry'] == 'solve':
         if out[0] == 'ret':
             solved, indexes, labels = out[1], out[2], out[3]
@@ -316,21 +444,90 @@ def c_case17(case, obs):
     xs = []
     for call, s in zip(case['calls'], obs['steps']):
         tw = s['twin']
-        xs.append('(mkX %s %s %s %s %s)' % (sc.c_state(s['vals'], s['status'], s['iters'], s['log']),
-                                           lib.clist(c_trace(t) for t in s['traces']), c_res(call, s['out']),
-                                           sc.c_state(tw['vals'], tw['status'], tw['iters'], tw['log']), c_res(call, tw['out'])))
+        xs.append('(mkX %s %s %s %s %s %s)' % (sc.c_state(s['vals'], s['status'], s['iters'], s['log']),
+                                              lib.clist(c_trace(t) for t in s['traces']), c_res(call, s['out']),
+                                              sc.c_state(tw['vals'], tw['status'], tw['iters'], tw['log']), c_res(call, tw['out']),
+                                              lib.clist(c_frame(f) for f in s['frames'])))
     return '(mkCase17 %s %s %s %s %s %s %s)' % (
         sc.c_scripts(case['scripts']), cfg, span, sc.c_desc(case),
         sc.c_state(case['vals'], case['status'], case['iters'], []),
         lib.clist(c_call(case, c) for c in case['calls']), lib.clist(xs))
 
 
+def c_acases(case, obs):
+    """One term per call that created Trace objects: heap = [model.names, TRACE_VARIABLES?, the caller's list?], the
+    observed identity flags and names of the created Traces (Tracer/TracerNames.v)."""
+    nv = case['nvars']
+    tv = case.get('trace_variables')
+    out = []
+    for call, s in zip(case['calls'], obs['steps']):
+        al = s.get('alias') or []
+        if not al:
+            continue
+        heap = [lib.clist(lib.cnat(i) for i in range(nv))]
+        if tv is not None:
+            heap.append(lib.clist(lib.cnat(i) for i in tv))
+        env = '(mkNEnv 0%%nat %s)' % ('None' if tv is None else '(Some 1%nat)')
+        a = call.get('trace', ['omit'])
+        k = a[0]
+        if k == 'list':
+            heap.append(lib.clist(lib.cnat(i) for i in a[1]))
+            spec = '(NSList %s)' % lib.cnat(len(heap) - 1)
+        elif k == 'tuple':
+            spec = '(NSTuple %s)' % lib.clist(lib.cnat(i) for i in a[1])
+        elif k == 'name':
+            spec = '(NSStr %s)' % lib.cnat(a[1])
+        elif k == 'flag':
+            spec = '(NSFlag %s)' % lib.cbool(a[1])
+        elif k in ('genexp', 'set'):
+            spec = 'NSOther'
+        else:
+            spec = 'NSNone'
+        flags = lib.clist('(%s, %s, %s)' % (lib.cbool(f1), lib.cbool(f2), lib.cbool(f3)) for _, f1, f2, f3 in al)
+        names = lib.clist(lib.clist(lib.cnat(i) for i in s['traces'][p]['names']) for p, _, _, _ in al)
+        out.append('(mkACase %s %s %s %s %s)' % (env, spec, lib.clist(heap), flags, names))
+    return out
+
+
+def c_icase(case, obs):
+    index = [0, 1] + [2 + i for i in range(case['nvars'])]
+    o = obs['init']
+    if o[0] == 'raise':
+        exp = '(Raise %s)' % ('DuplicateNameError' if o[1] == 'DuplicateNameError' else sc.EXN.get(o[1], 'OtherError'))
+    else:
+        exp = '(Ret (%s, %s))' % (lib.clist(lib.cnat(i) for i in o[1]), lib.cnat(o[2] if o[3] else 10 ** 6))     # a non-empty Trace can never match
+    return '(mkICase %s %s %s %s)' % (lib.clist(lib.cnat(i) for i in index), lib.cnat(_init_id(case, _init_name(case))), lib.cnat(case['n']), exp)
+
+
 def correspond(cases, obs, tag, tier):
-    items = [c_case17(_full(c, o), o) for c, o in zip(cases, obs)]
-    return lib.run_coq_cases(tag, PREAMBLE, items, 'bad_indices check_tcase17 0%nat cs', shard=250)
+    main = [i for i, c in enumerate(cases) if c.get('kind') != 'init']
+    items = [c_case17(_full(cases[i], obs[i]), obs[i]) for i in main]
+    bad, errs = lib.run_coq_cases(tag, PREAMBLE, items, 'bad_indices check_tcase17 0%nat cs', shard=250)
+    bad = [main[j] for j in bad]
+    inits = [i for i, c in enumerate(cases) if c.get('kind') == 'init']
+    if inits and not errs:
+        ibad, ierrs = lib.run_coq_cases(tag + 'init', PREAMBLE, [c_icase(cases[i], obs[i]) for i in inits], 'bad_indices check_icase 0%nat cs', shard=2000)
+        bad = sorted(set(bad) | {inits[j] for j in ibad})
+        errs = errs + ierrs
+    # the names-object model: which list object each freshly created Trace keeps
+    aitems, owner = [], []
+    for i, (c, o) in enumerate(zip(cases, obs)):
+        if c.get('kind') == 'init':
+            continue
+        for term in c_acases(_full(c, o), o):
+            aitems.append(term)
+            owner.append(i)
+    if aitems and not errs:
+        abad, aerrs = lib.run_coq_cases(tag + 'names', PREAMBLE, aitems, 'bad_indices check_acase 0%nat cs', shard=2000)
+        bad = sorted(set(bad) | {owner[j] for j in abad})
+        errs = errs + aerrs
+    return bad, errs
 
 
 def explain(case, obs):
+    if case.get('kind') == 'init':
+        return lib.coq_eval('explain17', PREAMBLE, 'tracer_init float %s %s %s' % (
+            lib.clist(lib.cnat(i) for i in [0, 1] + [2 + i for i in range(case['nvars'])]), lib.cnat(_init_id(case, _init_name(case))), lib.cnat(case['n'])))[-2000:]
     case = _full(case, obs)
     span = lib.clist(lib.cZ(2000 + i) for i in range(case['n']))
     tv = case.get('trace_variables')
@@ -359,6 +556,12 @@ def _call_periods(case, call):
     if e == 'solve_period':
         p = call['label'] - 2000
         return [p] if 0 <= p < n else None
+    if e == 'trace_t':
+        t = call['t']
+        return [t if t >= 0 else t + n] if -n <= t < n else None
+    if e == 'trace_period':
+        p = call['plabel'] - 2000
+        return [p] if 0 <= p < n else None
     ps = positions_of_solve(case, call)
     return ps if all(0 <= p < n for p in ps) else None
 
@@ -382,6 +585,8 @@ def _is_prefix_of_run(idx):
 
 def oracle(case, obs):
     fails = []
+    if case.get('kind') == 'init':
+        return fails            # construction is outside the property's text: the model speaks (K), the oracle has nothing to say
 
     def bad(sig, what):
         fails.append({'sig': sig, 'what': what})
@@ -398,6 +603,17 @@ def oracle(case, obs):
         periods = _call_periods(case, call)
         if not tw['traces_untouched']:
             bad('C17|TracerMixin|twin-trace-written', 'call %d: the untraced twin has a non-empty Trace' % ci)
+        if ent in DIRECT:
+            # a snapshot method is not a solve: it must leave values, statuses and iteration counts alone, and it may
+            # touch the Trace of the period it names only
+            if any(s[k] != prev[k] for k in ('vals', 'status', 'iters')):
+                bad('C17|TracerMixin|snapshot-method-changed-the-solution', 'call %d: %s changed values / status / iterations' % (ci, ent))
+                break
+            pp = _call_periods(case, call)
+            if any(s['traces'][p] != prev['traces'][p] for p in range(n) if pp is None or p not in pp):
+                bad('C17|TracerMixin|other-period-trace-changed', 'call %d: %s changed the Trace of a period it does not name' % (ci, ent))
+            prev = {'vals': s['vals'], 'status': s['status'], 'iters': s['iters'], 'traces': s['traces']}
+            continue
         # ---- tracing off: no trace is written, and the call is the plain call
         if not on:
             if s['traces'] != prev['traces']:
@@ -441,10 +657,11 @@ def oracle(case, obs):
             if not reset:
                 _check_shapes(case, call, ci, s, prev, names, periods, bad)
         prev = {'vals': s['vals'], 'status': s['status'], 'iters': s['iters'], 'traces': s['traces']}
-    nf = obs.get('names_follow_model') or []
-    if nf:
-        bad(ALIAS_SIG, 'after m.add_variable(...) the Trace of period(s) %s lists the new variable in .names although it holds no row for it '
-            '(trace=True stores self.names itself, not a copy)' % nf)
+    # a Trace is a record: nothing done to the model, the caller's list or the class afterwards changes it
+    for step, p in obs.get('names_follow_edits') or []:
+        bad('C17|TracerMixin|trace-names-follow-later-edits', 'after %s the Trace of period %d shows other names than it recorded '
+            '(Trace.names is shared with a list somebody else can edit)' % (step, p))
+        break
     return fails
 
 
@@ -530,12 +747,21 @@ def _check_shapes(case, call, ci, s, prev, names, periods, bad):
                 exp_before = [prev['vals'][i][p + off] if (off and i in case['endo']) else prev['vals'][i][p] for i in names]
                 if new_val[1] != exp_before:
                     bad('C17|TracerMixin|before-snapshot', 'call %d period %d: before snapshot %s, expected %s' % (ci, p, new_val[1], exp_before))
+            fr = s['frames'][p]
+            if len(before['index']) != len(before['values']):
+                # an earlier failed append (finding #16) left a label without a column in this Trace: every later frame is off
+                if fr[0] != 'df':
+                    bad(KNOWN_SIG, 'call %d period %d: Trace.to_dataframe() raises %s — the Trace still carries the label of the append that failed earlier' % (ci, p, fr[1]))
+            elif fr[0] != 'df' or fr[1] != after['index'] or fr[2] != after['names'] or fr[3] != after['values']:
+                bad('C17|TracerMixin|to_dataframe', 'call %d period %d: Trace.to_dataframe() is not the labels x names table of the Trace: %s' % (ci, p, str(fr)[:200]))
         else:
             if not _is_prefix_of_run(new_idx) or 'end' in new_idx[:-1]:
                 bad('C17|TracerMixin|label-sequence-error-path', 'call %d period %d: labels %s are not a prefix of start, before, 0, 1, ...' % (ci, p, new_idx))
 
 
 def nontrivial(case, obs):
+    if case.get('kind') == 'init':
+        return False
     for s in obs['steps']:
         if s['out'][0] == 'raise':
             return True
@@ -549,14 +775,20 @@ def nontrivial(case, obs):
 
 
 def bucket(case, obs):
+    if case.get('kind') == 'init':
+        return 'init/' + obs['init'][0]
     c0 = case['calls'][0]
     last = obs['steps'][-1]['out']
     b = [c0['entry'], c0.get('trace', ['omit'])[0], 'reset=%s' % c0.get('reset'), '%dcalls' % len(case['calls'])]
+    if any(c['entry'] in DIRECT for c in case['calls'][1:]):
+        b.append('+snapshot-call')
     b.append(last[1] if last[0] == 'raise' else 'ret')
     return '/'.join(str(x) for x in b)
 
 
 def shrink_candidates(case):
+    if case.get('kind') == 'init':
+        return
     if len(case['calls']) > 1:
         for i in range(len(case['calls'])):
             c = copy.deepcopy(case)
@@ -666,7 +898,7 @@ def scenarios():
 
 
 TRACE_KINDS = [['omit'], ['none'], ['flag', False], ['flag', True], ['name', 0], ['name', 1], ['list', [1, 0]], ['list', [0]],
-               ['tuple', [0, 1]], ['list', []], ['empty_str']]
+               ['tuple', [0, 1]], ['list', []], ['empty_str'], ['genexp', [0]], ['set', [1]]]
 
 
 def _apply_scenario(c, p, scen):
@@ -697,6 +929,24 @@ def gen(rng, tier):
     o = _apply_scenario(c, 1, scen[0])
     c['calls'] = [_call('solve_t', 1, 4, o, ['name', 0]), _call('solve_t', 1, 4, o, ['list', [0, 1]], True), _call('solve_t', 1, 4, o, ['name', 1])]
     cases.append(c)
+    # ---- the public snapshot methods called directly (trace_t never asks whether `trace` is truthy), alone and around solves;
+    #      to_dataframe after finding #16 (a label without a column)
+    for a in (['omit'], ['none'], ['flag', False], ['flag', True], ['name', 1], ['name', 5], ['list', [1, 0]], ['list', []], ['tuple', [0]], ['empty_str']):
+        for ent, where in (('trace_t', 1), ('trace_t', -3), ('trace_t', 4), ('trace_period', 2001), ('trace_period', 1999)):
+            c = _case()
+            o = _apply_scenario(c, 1, scen[0])
+            d1 = {'entry': ent, 'opts': _opts(), 'label': ['user', 1]}
+            d1['t' if ent == 'trace_t' else 'plabel'] = where
+            if a[0] != 'omit':
+                d1['trace'] = a
+            d2 = dict(d1, label='end', reset=True)
+            c['calls'] = [d1, _call('solve_t', 1, 4, o, ['flag', True]), dict(d1, label=7), d2]
+            cases.append(c)
+    # ---- TracerMixin.__init__: TRACE_NAME free / a variable / 'status' / 'iterations', 0-3 variables, 0-3 periods
+    for nv in range(0, 4):
+        for n in (0, 1, 3):
+            for tn in [['status'], ['iterations']] + [['var', i] for i in range(nv + 1)] + [['fresh', k] for k in range(5)]:
+                cases.append({'kind': 'init', 'nvars': nv, 'n': n, 'trace_name': tn})
     # ---- solve(): the case splits of iter_periods / label validation, traced
     for lags, leads, n, st, en in [(0, 0, 4, None, None), (1, 1, 4, None, None), (2, 2, 4, None, None), (3, 0, 3, None, None), (0, 3, 3, None, None),
                                    (4, 0, 3, None, None), (0, 5, 3, None, None), (1, 0, 1, None, None), (0, 0, 4, 3, 1), (0, 0, 4, 2, 2),
@@ -780,6 +1030,25 @@ def _parsed_case(rng):
         c['calls'] = [_call('solve', p, n, o, a, reset, start=st, end=en)]
     else:
         c['calls'] = [_call(entry, p, n, o, a, reset, neg=rng.random() < 0.3)]
+    return c
+
+
+def _direct_call(rng, n, nv, focus):
+    lab = rng.choice(['start', 'end', 0, 3, ['user', 0], ['user', 7], 'before'])
+    a = rng.choice([['omit'], ['none'], ['flag', False], ['flag', True], ['flag', True], ['name', rng.randrange(nv)], ['name', nv + 1],
+                    ['list', [rng.randrange(nv) for _ in range(rng.randint(0, 3))]], ['tuple', [rng.randrange(nv)]], ['empty_str'], ['list', []]])
+    c = {'opts': _opts(), 'label': lab}
+    if rng.random() < 0.6:
+        c['entry'] = 'trace_t'
+        c['t'] = focus if rng.random() < 0.7 else rng.choice([rng.randrange(n), -1, -n, n, -n - 1])
+    else:
+        c['entry'] = 'trace_period'
+        c['plabel'] = 2000 + (focus if rng.random() < 0.7 else rng.choice([rng.randrange(n), -1, n, -2000]))
+    if a[0] != 'omit':
+        c['trace'] = a
+    r = rng.choice([None, None, False, True])
+    if r is not None:
+        c['reset'] = r
     return c
 
 
@@ -872,7 +1141,7 @@ def _random_case(rng, scen):
             a = rng.choice([['omit'], ['none'], ['flag', False], ['list', []], ['empty_str']])
         elif not consistent:
             if q < 0.4:
-                a = ['flag', True]
+                a = rng.choice([['flag', True]] * 6 + [['genexp', [rng.randrange(nv)]], ['set', [rng.randrange(nv)]]])
             elif q < 0.6:
                 a = ['name', rng.randrange(nv)]
             else:
@@ -906,6 +1175,10 @@ def _random_case(rng, scen):
             calls.append(cl)
         else:
             calls.append(_call(entry, p, n, o, a, reset, neg=rng.random() < 0.3))
+    # the public snapshot methods called directly, somewhere in the sequence
+    if rng.random() < 0.2:
+        k = rng.randrange(len(calls) + 1)
+        calls.insert(k, _direct_call(rng, n, nv, focus))
     # out-of-domain endings (always the last call): unknown name, t outside the span, unknown label
     r = rng.random()
     if r < 0.06:
